@@ -247,7 +247,8 @@ def make(two_deviations=False):
 def scale_fn(g):
     """Large but well-formed definitions (must be accepted) and a malformed element far into a long list (must be rejected cleanly)."""
     shape = ("300-tasks-in-one-file", "task-with-150-deps", "200-args-and-options", "bad-dep-at-position-140", "bad-arg-at-position-180",
-             "duplicate-name-after-300-tasks", "option-value-of-20000-chars")[g.choose("shape", 7)]
+             "duplicate-name-after-300-tasks", "option-value-of-20000-chars", "dep-in-package-with-256-char-name",
+             "dep-20-levels-of-250-chars")[g.choose("shape", 9)]
     proj = hrun.Project()
     try:
         ok = True
@@ -268,6 +269,12 @@ def scale_fn(g):
                 args[180] = [1]
                 ok = False
             text = "run_experiment(name='x', run='true', args=%r, options=%r)\n" % (args, {"k%d" % i: i for i in range(200)})
+        elif shape == "dep-in-package-with-256-char-name":
+            text = "run_command(name='x', run='true', deps=['//%s:y'])\n" % ("p" * 256)
+            ok = False
+        elif shape == "dep-20-levels-of-250-chars":
+            text = "run_command(name='x', run='true', deps=['//%s:y'])\n" % "/".join(["q" * 250] * 20)
+            ok = False
         else:
             text = "run_command(name='x', run='true', options={'v': %r})\n" % ("z" * 20000)
         proj.write("COND", text)
